@@ -134,7 +134,7 @@ def _main(a, prop, seed, t0):
     raised_units = set(x['unit'] for x in info['raised']) | set(x['unit'] for x in info['unsupported'])
     for u_ in info['units']:
         if u_.get('kind') == 'function' and u_.get('paths', 0) > 0 and u_.get('completed', 0) == 0 and u_['name'] not in raised_units \
-           and not any(n.startswith(u_['name'] + '/reject/') for n, _, _ in obls):
+           and not any(n.startswith(u_['name'] + '/reject/') or n.startswith(u_['name'] + '/post/reject') for n, _, _ in obls):
             canary_bad.append(u_['name'] + '/no-path-completed')
     if canary_bad:
         print(f"CHECKER-ERROR property={prop} vacuity canary proved (contradictory assumptions) in: {canary_bad[:5]}")
